@@ -1,7 +1,9 @@
 package tg
 
 import (
+	"math"
 	"sort"
+	"time"
 
 	"github.com/d5/tengo/v2"
 	"verif/engine/gen"
@@ -29,6 +31,13 @@ func ObjModules() map[string]tengo.Object {
 		"undefmod": tengo.UndefinedValue,
 		"nummod":   &tengo.Int{Value: 97},
 		"listmod":  &tengo.ImmutableArray{Value: []tengo.Object{tengo.TrueValue, tengo.UndefinedValue, &tengo.String{Value: "a"}}},
+		"errmod":   &tengo.Error{Value: tengo.TrueValue},
+		"mapmod": &tengo.Map{Value: map[string]tengo.Object{"t": tengo.FalseValue, "e": &tengo.Error{Value: tengo.UndefinedValue},
+			"n": &tengo.ImmutableMap{Value: map[string]tengo.Object{"u": tengo.UndefinedValue, "a": &tengo.Array{Value: []tengo.Object{tengo.TrueValue}}}}}},
+		"bytesmod": &tengo.Bytes{Value: []byte("a\x00\xff")},
+		"timemod":  &tengo.Time{Value: time.Unix(1, 5).UTC()},
+		"charmod":  &tengo.Char{Value: 0x1F600},
+		"nanmod":   &tengo.Float{Value: math.NaN()},
 	}
 }
 
